@@ -42,6 +42,21 @@ def main():
             res[sid] = entry
             print(sid, "patch does not apply")
             continue
+        genv = dict(os.environ, GOFLAGS="-mod=mod", GOPROXY="off", GOSUMDB="off", GOTOOLCHAIN="local")
+        go = "/root/go/pkg/mod/golang.org/toolchain@v0.0.1-go1.25.0.linux-amd64/bin/go"
+        rc, out = sh([go if os.path.exists(go) else "go", "build", "-tags", "verif", "./pkg/...", "./tools/..."],
+                     cwd=wt, env=genv)
+        if rc != 0:
+            # written against an earlier commit of the library (e.g. uses an import a later
+            # repair removed): recorded with the commit it was confirmed at, not a verdict
+            entry["result"] = "does-not-compile-at-head"
+            entry["build_error"] = out[-300:]
+            entry["confirmed_at"] = meta.get("worktree", "")
+            res[sid] = entry
+            print(sid, "does not compile at HEAD", flush=True)
+            sh(["git", "checkout", "--", "."], cwd=wt)
+            json.dump(res, open(out_path, "w"), indent=1, sort_keys=True)
+            continue
         try:
             env = dict(os.environ, VERIF_REPO=wt)
             entry["checks"] = {}
